@@ -2,6 +2,7 @@ package main
 
 import (
 	"go/types"
+	"strings"
 
 	"golang.org/x/tools/go/ssa"
 )
@@ -34,4 +35,106 @@ type ifaceFn func(e *Engine, st *State, fr *Frame, recv Val, m *types.Func, args
 func (e *Engine) ifaceModel(recv Val, m *types.Func) ifaceFn { return nil }
 
 func (e *Engine) evalExtCall(x *Expr, se *SpecEnv) (Val, bool) { return Val{}, false }
-func (e *Engine) evalPureGo(x *Expr, se *SpecEnv) (Val, bool)  { return Val{}, false }
+
+// evalPureGo: a side-effect free, single-path Go function or method of the
+// repository used inside a specification. Its meaning is taken from the code
+// (the body is executed symbolically on the spec state), never restated.
+func (e *Engine) evalPureGo(x *Expr, se *SpecEnv) (Val, bool) {
+	var fn *ssa.Function
+	var args []Val
+	var methodEnv TEnv
+	if i := strings.Index(x.Name, "."); i >= 0 {
+		recvName, mname := x.Name[:i], x.Name[i+1:]
+		rv, ok := e.lookupName(recvName, se)
+		if !ok {
+			return Val{}, false
+		}
+		ms := e.prog.MethodSets.MethodSet(rv.T)
+		var sel *types.Selection
+		for j := 0; j < ms.Len(); j++ {
+			if ms.At(j).Obj().Name() == mname {
+				sel = ms.At(j)
+			}
+		}
+		if sel == nil {
+			panic(unsupported("spec call %s: no method %s on %s (method set size %d)", x.Name, mname, rv.T, ms.Len()))
+		}
+		fn, methodEnv = e.methodOf(sel, rv.T, se.env)
+		args = append(args, rv)
+	} else {
+		p := e.pkgs[se.pkg]
+		if p == nil {
+			return Val{}, false
+		}
+		f, ok := p.Members[x.Name].(*ssa.Function)
+		if !ok {
+			return Val{}, false
+		}
+		fn = f
+	}
+	if fn == nil {
+		return Val{}, false
+	}
+	for _, a := range x.Args {
+		args = append(args, e.evalSpec(a, se))
+	}
+	st := se.st.Clone()
+	st.dead = true
+	var out *Val
+	n := 0
+	env := e.calleeEnv(fn, se.env)
+	if methodEnv != nil {
+		env = methodEnv
+	}
+	savedPaths := e.paths
+	e.execFunction(st, fn, env, args, nil, &Frame{depth: 2, fn: nil, env: se.env}, nil, func(st *State, results []Val) {
+		n++
+		if len(results) == 1 {
+			r := results[0]
+			out = &r
+		}
+	})
+	e.paths = savedPaths
+	if n != 1 || out == nil {
+		panic(unsupported("spec use of %s: not a single-path single-result function", x.Name))
+	}
+	if se.wantCell {
+		// cellof(f(args)): the memory cell whose content f returns
+		if len(e.lastRet) == 1 {
+			if loc, ok := e.lastLoad[e.lastRet[0]]; ok && loc.Kind == LocElem && loc.Off == 0 {
+				one := IntLit(1)
+				return Val{T: types.NewSlice(loc.ElemT), L: []Term{loc.Base, loc.Idx, one, one}}, true
+			}
+		}
+		panic(unsupported("cellof(%s): the function does not return the content of a slice element", x.Name))
+	}
+	return *out, true
+}
+
+// methodOf returns the (generic) body of a method selected on a possibly
+// parameterised receiver type together with the type environment binding the
+// receiver's type parameters.
+func (e *Engine) methodOf(sel *types.Selection, recvT types.Type, env TEnv) (*ssa.Function, TEnv) {
+	f := sel.Obj().(*types.Func)
+	if fn := e.prog.MethodValue(sel); fn != nil {
+		return fn, nil
+	}
+	orig := f.Origin()
+	fn := e.prog.FuncValue(orig)
+	if fn == nil {
+		return nil, nil
+	}
+	menv := TEnv{}
+	rt := recvT
+	if pt, ok := rt.Underlying().(*types.Pointer); ok {
+		rt = pt.Elem()
+	}
+	if nt, ok := rt.(*types.Named); ok {
+		tps := fn.TypeParams()
+		tas := nt.TypeArgs()
+		for i := 0; tps != nil && tas != nil && i < tps.Len() && i < tas.Len(); i++ {
+			menv[tps.At(i)] = resolve(tas.At(i), env)
+		}
+	}
+	return fn, menv
+}
